@@ -44,6 +44,9 @@ func schema(tag string) []dump.File {
 	return []dump.File{
 		{Name: "a.yang", Text: `module a { ` + H("a") + ` typedef t { type int8 { range "1..9"; } default 3; } identity base; identity d1 { base base; } grouping g { leaf gl { type t; } list gli { key k; leaf k { type string; } } } container c { uses g; leaf x { type string; default "` + tag + `"; } } leaf r { type identityref { base base; } } rpc op { input { leaf oi { type t; } } } ` + bigDir + ` leaf p8 { type int8; } leaf pu { type uint64; } leaf mm { type int8 { range "min..5 | 7..max"; } } leaf mu { type uint64 { range "1..max"; } } leaf ml { type string { length "min..9 | 11..max"; } } leaf md { type decimal64 { fraction-digits 3; range "min..0 | 1.5..max"; } } }`},
 		{Name: "b.yang", Text: `module b { ` + H("b") + ` import a { prefix a; } identity d2 { base a:base; } augment /a:c { leaf y { type a:t; } container z { uses a:g; } } container bc { config false; uses a:g; leaf e { type enumeration { enum one; enum two { value 5; } } } } deviation /a:c/a:x { deviate add { units u; } } }`},
+		// a module whose import prefixes no processing run ever resolves (they occur in leafref paths
+		// only): whatever the library builds to resolve them is built by the first reader
+		{Name: "v.yang", Text: `module v { ` + H("v") + ` import a { prefix va; } import b { prefix vb; } leaf lr { type leafref { path "/va:c/va:x"; } } container vc { leaf lr2 { type leafref { path "/va:c/vb:y"; } } } }`},
 	}
 }
 
@@ -73,6 +76,21 @@ var ops = []op{
 			return "<nil>"
 		}
 		return e.Path()
+	}},
+	{"Find(/va:c/va:x) from v", func(ms *yang.Modules) string {
+		e := entry(ms, "v").Find("/va:c/va:x")
+		if e == nil {
+			return "<nil>"
+		}
+		return e.Path() + fmt.Sprint(len(entry(ms, "v").GetErrors()))
+	}},
+	{"Find(/va:c/vb:y) from v/vc/lr2", func(ms *yang.Modules) string {
+		e := entry(ms, "v").Dir["vc"].Dir["lr2"].Find("/va:c/vb:y")
+		m := yang.FindModuleByPrefix(ms.Modules["v"], "vb")
+		if e == nil || m == nil {
+			return "<nil>"
+		}
+		return e.Path() + " " + m.Name
 	}},
 	{"Namespace(grafted y)", func(ms *yang.Modules) string { return entry(ms, "a").Dir["c"].Dir["y"].Namespace().Name }},
 	{"InstantiatingModule(grafted y)", func(ms *yang.Modules) string {
